@@ -176,6 +176,9 @@ func printResult(res *HarnessResult) {
 				s = s[:600] + "…"
 			}
 			fmt.Printf("   VIOL %s decisions=%v tape=%s\n", k, v.Decisions, s)
+			for _, o := range v.Outs {
+				fmt.Println("         out:", o)
+			}
 			for _, t := range v.Trace {
 				fmt.Println("        ", t)
 			}
